@@ -14,6 +14,10 @@ type Chooser interface {
 type lockState struct {
 	writer  int // thread id holding the write lock, -1 none
 	readers map[int]int
+	// pending: writers that have called Lock and wait for the readers to leave.
+	// As sync.RWMutex documents, while a writer is pending further RLock calls
+	// block (a recursive read lock then deadlocks with the pending writer).
+	pending map[int]bool
 }
 
 type thr struct {
@@ -24,6 +28,8 @@ type thr struct {
 	// pending lock request while parked at an Acquire point
 	wantObj  any
 	wantMode string
+	// announced: this thread has called Lock (it is in pending) and waits
+	announced bool
 	// pending condition while parked in WaitUntil (a blocking call into code
 	// the harness models: a pipe without data, a channel without a sender)
 	waitCond func() bool
@@ -114,7 +120,7 @@ func (s *Coop) Panics() []string {
 func (s *Coop) lock(obj any) *lockState {
 	l := s.locks[obj]
 	if l == nil {
-		l = &lockState{writer: -1, readers: map[int]int{}}
+		l = &lockState{writer: -1, readers: map[int]int{}, pending: map[int]bool{}}
 		s.locks[obj] = l
 	}
 	return l
@@ -132,9 +138,12 @@ func (s *Coop) enabled(t *thr) bool {
 	}
 	l := s.lock(t.wantObj)
 	if t.wantMode == "w" {
+		if !t.announced {
+			return true // the call to Lock itself can always be made
+		}
 		return l.writer == -1 && len(l.readers) == 0
 	}
-	return l.writer == -1
+	return l.writer == -1 && len(l.pending) == 0
 }
 
 // pick chooses the next thread to run. from is the running thread (-1: none).
@@ -247,12 +256,21 @@ func (s *Coop) Acquire(obj any, mode string) {
 	if t == nil {
 		return
 	}
-	t.wantObj, t.wantMode = obj, mode
+	t.wantObj, t.wantMode, t.announced = obj, mode, false
 	s.Trace = append(s.Trace, Event{t.id, "lock." + mode})
 	s.switchFrom(t, false)
-	// we run again: the lock is available (we were enabled when chosen)
+	// we run again: a reader was only chosen with the lock available; a writer
+	// now makes its call to Lock and, if the lock is busy, is pending from here on
 	l := s.lock(obj)
 	if mode == "w" {
+		if l.writer != -1 || len(l.readers) != 0 {
+			l.pending[t.id] = true
+			t.announced = true
+			s.Trace = append(s.Trace, Event{t.id, "lock.w.pending"})
+			s.switchFrom(t, false)
+			delete(l.pending, t.id)
+			t.announced = false
+		}
 		if l.writer != -1 || len(l.readers) != 0 {
 			panic("sched: write lock granted while held")
 		}
